@@ -159,6 +159,8 @@ def check(run):
     _r10(run, mods)
     _r11(run, mods)
     _r12(run, prog)
+    _r13(run, fams)
+    _r14(run, mods)
     from ..cachekey import check_caches
     check_caches(run, list(mods.values()) + [prog.modules['cherab.openadas.install']], 'C06-K', prog=prog)
 
@@ -237,6 +239,117 @@ def _r1(run, fams):
             seen[t] = name
             run.ok('C06-R1', 'distinct template ' + name, t, sample=False)
     run.floor('C06-R1', 14 * 2)
+
+
+# ------------------------------------------------------------------------------------------ R13
+def _r13(run, fams):
+    """Writer / reader agreement on the representation of the tables: JSON cannot hold arrays, so the writer stores each table with
+    .tolist() and the reader turns the same record keys back into float64 arrays."""
+    run.describe('C06-R13', 'every record key the writer stores with .tolist() is converted back with np.array(record[key], float64) by the getter, '
+                            'and every key the getter converts is one the writer stored as a list (an array left in the record makes json.dump raise)')
+
+    def const_key(sub):
+        return sub.slice.value if isinstance(sub, ast.Subscript) and isinstance(sub.slice, ast.Constant) and isinstance(sub.slice.value, str) else None
+
+    def is_tolist(v):
+        return isinstance(v, ast.Call) and isinstance(v.func, ast.Attribute) and v.func.attr == 'tolist' and not v.args
+
+    def closure(fn, mod):
+        out, todo = [], [fn]
+        while todo:
+            f = todo.pop()
+            if any(f is g for g in out):
+                continue
+            out.append(f)
+            for c in ast.walk(f):
+                if isinstance(c, ast.Call) and isinstance(c.func, ast.Name) and c.func.id in mod.functions \
+                        and not c.func.id.startswith(('encode_', 'valid_', 'get_')):
+                    todo.append(mod.functions[c.func.id])
+        return out
+
+    for fm in fams:
+        W, R = set(), set()
+        for role in ('add', 'update'):
+          for body in closure(fm.fn[role], fm.mod):
+            for n in ast.walk(body):
+                if isinstance(n, ast.Dict):
+                    for k, v in zip(n.keys, n.values):
+                        if isinstance(k, ast.Constant) and isinstance(k.value, str) and is_tolist(v):
+                            W.add(k.value)
+                elif isinstance(n, ast.Assign) and len(n.targets) == 1 and const_key(n.targets[0]) and is_tolist(n.value):
+                    W.add(const_key(n.targets[0]))
+        get = fm.fn['get']
+        other = []
+        gbodies = closure(get, fm.mod)
+        for n in [x for b in gbodies for x in ast.walk(b)]:
+            if isinstance(n, ast.Call) and (dotted(n.func) or '').split('.')[-1] in ('array', 'asarray', 'ascontiguousarray'):
+                par = [a for b in gbodies for a in ast.walk(b) if isinstance(a, ast.Assign) and a.value is n and len(a.targets) == 1]
+                k = const_key(par[0].targets[0]) if par else None
+                if k is not None and n.args and const_key(n.args[0]) == k:
+                    R.add(k)
+                else:
+                    other.append(n)
+        run.subject('C06-R13')
+        # anything else that could convert the record (a helper given the record, a comprehension over its items) leaves the getter undecided
+        helpers = []
+        comps = [c for b in gbodies for c in ast.walk(b) if isinstance(c, (ast.DictComp, ast.ListComp, ast.GeneratorExp))
+                 and any(isinstance(x, ast.Call) and (dotted(x.func) or '').split('.')[-1] in ('array', 'asarray', 'float', 'map') for x in ast.walk(c))]
+        if not W:
+            run.ok('C06-R13', fm.name, 'no table of this family is stored as a list (scalars only)') if not R else \
+                run.undecided('C06-R13', fm.name, 'getter converts %s but no .tolist() store was recognised in the writer' % sorted(R))
+            continue
+        if other or helpers or comps:
+            run.undecided('C06-R13', fm.name, 'getter converts the record in a form that is not key-by-key (%d other conversions, %d helper calls)' % (len(other) + len(comps), len(helpers)))
+            continue
+        if W == R:
+            run.ok('C06-R13', fm.name, 'lists %s' % sorted(W))
+            continue
+        if W - R:
+            run.fail('C06-R13', _key(fm, 'get', 'not-converted:' + ','.join(sorted(W - R))), *_where(fm, 'get'),
+                     what="%s returns the record key(s) %s as the Python lists read from the file: the writer %s stored them with .tolist() and every other "
+                          "table of the record comes back as a float64 array, so what is read back is not the table that was installed"
+                          % (get.name, sorted(W - R), fm.fn['update'].name))
+        if R - W:
+            run.fail('C06-R13', _key(fm, 'update', 'not-listed:' + ','.join(sorted(R - W))), *_where(fm, 'update'),
+                     what="%s does not store the record key(s) %s with .tolist() although %s reads them back as arrays: the value left in the record "
+                          "is whatever the caller supplied -- the parsers supply numpy arrays, which json.dump rejects after the file has been opened for writing"
+                          % (fm.fn['update'].name, sorted(R - W), get.name))
+    run.floor('C06-R13', 10)
+
+
+
+# ------------------------------------------------------------------------------------------ R14
+def _r14(run, mods):
+    """'Metastable level cannot be less than zero': the writers reject exactly the negative indices."""
+    from ..cachekey import _guard_atoms
+    run.describe('C06-R14', "metastable index guards of the writers reject exactly the negative indices ('cannot be less than zero': index 0 is stored)")
+    want = None
+    for mname, mi in sorted(mods.items()):
+        for fname, fn in mi.functions.items():
+            for st in ast.walk(fn):
+                if not (isinstance(st, ast.If) and len(st.body) == 1 and isinstance(st.body[0], ast.Raise) and not st.orelse):
+                    continue
+                names = {n.id for n in ast.walk(st.test) if isinstance(n, ast.Name)}
+                if len(names) != 1 or 'metastable' not in next(iter(names)) or any(isinstance(n, (ast.Call, ast.Attribute)) for n in ast.walk(st.test)):
+                    continue
+                x = next(iter(names))
+                run.subject('C06-R14')
+                try:
+                    got = _guard_atoms(st.test, {x}, {x}, {x})[:2]
+                    if want is None:
+                        want = _guard_atoms(ast.parse('_x < 0', mode='eval').body, {'_x'}, {'_x'}, {'_x'})[:2]
+                except Exception:
+                    got = None
+                if got is None:
+                    run.undecided('C06-R14', '%s.%s' % (mname, fname), 'guard %s not a recognised comparison' % norm(st.test))
+                elif got == want:
+                    run.ok('C06-R14', '%s.%s' % (mname, fname), norm(st.test))
+                else:
+                    run.fail('C06-R14', '%s|%s|metastable-guard' % (mi.name, fname), mi.relpath, st.lineno,
+                             "%s rejects metastable indices with '%s'; the documented domain is index >= 0 ('cannot be less than zero'), so the guard "
+                             "must reject exactly the negative ones" % (fname, norm(st.test)))
+    run.floor('C06-R14', 2)
+
 
 
 # ------------------------------------------------------------------------------------------ R2
